@@ -49,4 +49,11 @@ theorem truthy_agrees : ∀ r ∈ truthyTable,
          links := if r.1.2.2.2.2.1 then [[[97]]] else [], enabled := r.1.2.2.2.2.2.1,
          disabled := r.1.2.2.2.2.2.2 } : TestFilter).isEmpty) = r.2 := by decide +kernel
 
+/-- `ResultFilter._do_grep` on real `Step` objects with the pattern compiled by `_make_grep_criterion`: the model's
+    per-item search agrees on every (pattern, result content) pair of the table — among them patterns whose match
+    would need two adjacent items, `\\A` / `\\Z` on inner items, and patterns matching the empty string on a result
+    without any grepable item. -/
+theorem grep_agrees : ∀ r ∈ grepTable,
+    some (({ grep := some r.1.1 } : ResultFilter).doGrep r.1.2) = r.2 := by decide +kernel
+
 end LccModel.Generated.C12
